@@ -120,12 +120,14 @@ def cosim_controller(cfg, seed, ncycles):
     lines = [model_cfg_line(cfg), " ".join(["0 0 0"] * nbm)]
     obs = []
     accepted = []
+    rfwait = []     # per cycle: the refresher requests the bus and the multiplexer has not handed it over (implementation)
 
     def gen():
         ready = [0] * nbm
         held = [(0, 0, 0)] * nbm
         for t in range(ncycles):
             if t > 0:
+                rfwait.append(int((yield dut.refresher.cmd.valid) and not (yield dut.refresher.cmd.ready)))
                 o = []
                 ready = []
                 for b in banks:
@@ -145,7 +147,9 @@ def cosim_controller(cfg, seed, ncycles):
             yield
     run_simulation(dut, gen())
     mo_all = core.run_driver("controller", lines)
-    wf2 = mo_all[0].strip() == "cfg wf2=1"     # the configuration meets the hypotheses of C02.controller_dfi_legal
+    hdr = dict(x.split("=") for x in mo_all[0].split()[1:])
+    wf2 = hdr.get("wf2") == "1"     # the configuration meets the hypotheses of C02.controller_dfi_legal
+    psimax = int(hdr.get("psimax", 0))   # the proved bound of C04.refresh_grant_bound for this configuration
     mo = mo_all[2:]
     n = min(len(mo), len(obs))
     mismatch = None
@@ -157,7 +161,7 @@ def cosim_controller(cfg, seed, ncycles):
                     else "dfi.p%d.%s" % ((k - 4 * nbm) // 8, ["cs_n", "bank", "address", "cas_n", "ras_n", "we_n", "rddata_en", "wrdata_en"][(k - 4 * nbm) % 8]))
             mismatch = dict(cycle=i, signal=what, impl=a[k], model=b[k], inputs=lines[max(2, i - 3) + 0:i + 3])
             break
-    return dict(mismatch=mismatch, lines=lines, obs=obs[:n], cycles=n, nbm=nbm, wf2=wf2)
+    return dict(mismatch=mismatch, lines=lines, obs=obs[:n], cycles=n, nbm=nbm, wf2=wf2, psimax=psimax, rfwait=rfwait[:n])
 
 
 def mon_cfg_line(cfg):
